@@ -597,7 +597,7 @@ impl Picker {
     }
 }
 
-const HEADER: &str = "From FV Require Import Base.Bytes Run.Ecdsa.\nOpen Scope N_scope.";
+const HEADER: &str = "From FV Require Import Base.Bytes Crypto.VmCryptoModel Run.Ecdsa.\nOpen Scope N_scope.";
 
 fn run_c16(args: &Args, out: &mut Out) {
     let mut rng = Rng::new(args.seed);
@@ -1059,6 +1059,89 @@ mod vm {
         data.extend_from_slice(msg);
         Ok(err_and_data(&run(script, data)?))
     }
+    /// one step of a multi-instruction script
+    #[derive(Clone)]
+    pub enum SeqOp {
+        Rec { r1: bool, sig: [u8; 64], msg: [u8; 32] },
+        Ed { pk: [u8; 32], sig: [u8; 64], msg: Vec<u8> },
+        /// another instruction leaves $err = 1: DIV by zero with F_UNSAFEMATH set
+        PresetErr,
+    }
+    #[derive(Clone, Debug, PartialEq)]
+    pub enum SeqObs {
+        Rec { err: u64, out: Vec<u8> },
+        Ed { err: u64 },
+        Preset { err: u64 },
+    }
+    /// Run all ops in ONE script; after each op LOG $err (and LOGD the 64 output bytes of a recovery,
+    /// whose buffer is pre-filled with the signature bytes so that zeroing is observable).
+    pub fn run_seq(ops: &[SeqOp]) -> Result<Option<Vec<SeqObs>>, String> {
+        let mut script = vec![op::gtf_args(0x20, 0x00, GTFArgs::ScriptData), op::movi(0x10, 64)];
+        let mut data: Vec<u8> = vec![];
+        for o in ops {
+            let off = data.len() as u32;
+            match o {
+                SeqOp::Rec { r1, sig, msg } => {
+                    data.extend_from_slice(sig);
+                    data.extend_from_slice(msg);
+                    script.extend([
+                        op::movi(0x15, off),
+                        op::add(0x21, 0x20, 0x15),
+                        op::addi(0x22, 0x21, 64),
+                        op::aloc(0x10),
+                        op::move_(0x11, RegId::HP),
+                        op::mcpi(0x11, 0x21, 64),
+                        if *r1 { op::ecr1(0x11, 0x21, 0x22) } else { op::eck1(0x11, 0x21, 0x22) },
+                        op::log(RegId::ERR, RegId::ZERO, RegId::ZERO, RegId::ZERO),
+                        op::logd(RegId::ZERO, RegId::ZERO, 0x11, 0x10),
+                    ]);
+                }
+                SeqOp::Ed { pk, sig, msg } => {
+                    data.extend_from_slice(pk);
+                    data.extend_from_slice(sig);
+                    data.extend_from_slice(msg);
+                    script.extend([
+                        op::movi(0x15, off),
+                        op::add(0x21, 0x20, 0x15),
+                        op::addi(0x22, 0x21, 32),
+                        op::addi(0x23, 0x22, 64),
+                        op::movi(0x24, msg.len() as u32),
+                        op::ed19(0x21, 0x22, 0x23, 0x24),
+                        op::log(RegId::ERR, RegId::ZERO, RegId::ZERO, RegId::ZERO),
+                    ]);
+                }
+                SeqOp::PresetErr => {
+                    script.extend([
+                        op::movi(0x16, 1), // F_UNSAFEMATH
+                        op::flag(0x16),
+                        op::div(0x17, RegId::ONE, RegId::ZERO),
+                        op::flag(RegId::ZERO),
+                        op::log(RegId::ERR, RegId::ZERO, RegId::ZERO, RegId::ZERO),
+                    ]);
+                }
+            }
+        }
+        data.extend_from_slice(&ED19_FILLER);
+        script.push(op::ret(RegId::ONE));
+        let rs = run(script, data)?;
+        if !rs.iter().any(|r| matches!(r, Receipt::Return { .. })) {
+            return Ok(None);
+        }
+        let mut it = rs.iter().filter(|r| matches!(r, Receipt::Log { .. } | Receipt::LogData { .. }));
+        let mut obs = vec![];
+        for o in ops {
+            let Some(Receipt::Log { ra, .. }) = it.next() else { return Ok(None) };
+            match o {
+                SeqOp::Rec { .. } => {
+                    let Some(Receipt::LogData { data: d, .. }) = it.next() else { return Ok(None) };
+                    obs.push(SeqObs::Rec { err: *ra, out: d.as_ref().map(|b| b.to_vec()).unwrap_or_default() });
+                }
+                SeqOp::Ed { .. } => obs.push(SeqObs::Ed { err: *ra }),
+                SeqOp::PresetErr => obs.push(SeqObs::Preset { err: *ra }),
+            }
+        }
+        Ok(Some(obs))
+    }
     /// bytes placed after the message: ED19 with msg_len = 0 reads 32 bytes ("Backwards compatibility
     /// with old contracts", opcodes_impl.rs), so for an empty message these are what gets verified
     pub const ED19_FILLER: [u8; 32] = [0xA5; 32];
@@ -1128,6 +1211,175 @@ fn c17_vm_ed(out: &mut Out, i: &EdIn, lib: bool) {
         Ok(Some(err)) => {
             if (err == 0) != lib || err > 1 {
                 out.oracle_fail("vm-ed19-differs-from-library", &format!("{desc}: VM err={err}"), rp);
+            }
+        }
+    }
+}
+
+/// what the library says about one op, independent of any history
+fn seq_expect(o: &vm::SeqOp) -> Option<vm::SeqObs> {
+    match o {
+        vm::SeqOp::Rec { r1, sig, msg } => {
+            let lib = if *r1 { r1_recover(sig, msg) } else { api_recover(sig, msg) };
+            Some(match lib {
+                Rec::Key(k) => vm::SeqObs::Rec { err: 0, out: k.to_vec() },
+                _ => vm::SeqObs::Rec { err: 1, out: vec![0u8; 64] },
+            })
+        }
+        vm::SeqOp::Ed { pk, sig, msg } => {
+            let ok = ed_fuel(pk, sig, msg).unwrap_or(false);
+            Some(vm::SeqObs::Ed { err: if ok { 0 } else { 1 } })
+        }
+        vm::SeqOp::PresetErr => Some(vm::SeqObs::Preset { err: 1 }),
+    }
+}
+fn seq_op_js(o: &vm::SeqOp) -> Value {
+    match o {
+        vm::SeqOp::Rec { r1, sig, msg } => json!({"op": if *r1 {"ECR1"} else {"ECK1"}, "sig": h64(sig), "msg": hexs(msg)}),
+        vm::SeqOp::Ed { pk, sig, msg } => json!({"op":"ED19","pk":hexs(pk),"sig":h64(sig),"msg":hexs(msg)}),
+        vm::SeqOp::PresetErr => json!({"op":"PRESET_ERR"}),
+    }
+}
+fn seq_op_of_js(v: &Value) -> Option<vm::SeqOp> {
+    Some(match v["op"].as_str()? {
+        "ECK1" => vm::SeqOp::Rec { r1: false, sig: parse64(&v["sig"])?, msg: parse32(&v["msg"])? },
+        "ECR1" => vm::SeqOp::Rec { r1: true, sig: parse64(&v["sig"])?, msg: parse32(&v["msg"])? },
+        "ED19" => vm::SeqOp::Ed { pk: parse32(&v["pk"])?, sig: parse64(&v["sig"])?, msg: hex::decode(v["msg"].as_str()?).ok()? },
+        "PRESET_ERR" => vm::SeqOp::PresetErr,
+        _ => return None,
+    })
+}
+/// Run a script of several crypto instructions; after EVERY op `$err` and the output must be what the
+/// library says for that op alone.  Returns the model case (library results + observations).
+fn c17_vm_seq(out: &mut Out, ops: &[vm::SeqOp], class: &str) -> Option<MCase> {
+    out.oracle_evaluations += 1;
+    let rp = json!({"kind":"vm-seq","class":class,"ops": ops.iter().map(seq_op_js).collect::<Vec<_>>()});
+    let names: Vec<String> = ops.iter().map(|o| seq_op_js(o)["op"].as_str().unwrap().to_string()).collect();
+    let obs = match vm::run_seq(ops) {
+        Err(e) => {
+            out.oracle_fail("vm-host-panic", &format!("VM panicked on the sequence {names:?} ({class}): {e}"), rp);
+            return None;
+        }
+        Ok(None) => {
+            out.oracle_fail("vm-script-did-not-return", &format!("sequence {names:?} ({class}) did not return / receipts missing"), rp);
+            return None;
+        }
+        Ok(Some(o)) => o,
+    };
+    let mut coq_ops = vec![];
+    for (k, (o, got)) in ops.iter().zip(obs.iter()).enumerate() {
+        let want = seq_expect(o).unwrap();
+        if *got != want {
+            // does the same op agree with the library when it runs alone? then the history is the cause
+            let alone = vm::run_seq(std::slice::from_ref(o)).ok().flatten().map(|v| v[0].clone());
+            let err_of = |x: &vm::SeqObs| match x {
+                vm::SeqObs::Rec { err, .. } | vm::SeqObs::Ed { err } | vm::SeqObs::Preset { err } => *err,
+            };
+            let cls = if matches!(o, vm::SeqOp::PresetErr) {
+                "vm-seq-preset-err-not-set"
+            } else if alone.as_ref() == Some(&want) && err_of(got) != err_of(&want) {
+                "vm-crypto-instruction-err-flag-depends-on-history"
+            } else if alone.as_ref() == Some(&want) {
+                "vm-crypto-instruction-output-depends-on-history"
+            } else {
+                match o {
+                    vm::SeqOp::Rec { r1: false, .. } => "vm-eck1-differs-from-library",
+                    vm::SeqOp::Rec { r1: true, .. } => "vm-ecr1-differs-from-library",
+                    _ => "vm-ed19-differs-from-library",
+                }
+            };
+            out.oracle_fail(
+                cls,
+                &format!("script {names:?} ({class}): after op #{k} ({}) the VM shows {:?} but the library result for that op alone means {:?} (the same op run alone gives {:?})",
+                    names[k], got, want, alone),
+                rp.clone(),
+            );
+        }
+        coq_ops.push(match (o, got) {
+            (vm::SeqOp::Rec { r1, sig, msg }, vm::SeqObs::Rec { err, out: o2 }) => {
+                let lib = if *r1 { r1_recover(sig, msg) } else { api_recover(sig, msg) };
+                format!("(VRec {} {} {})", lib.coq(), err, coq_bytes(o2))
+            }
+            (vm::SeqOp::Ed { pk, sig, msg }, vm::SeqObs::Ed { err }) => {
+                format!("(VEd {} {})", coq_bool(ed_fuel(pk, sig, msg).unwrap_or(false)), err)
+            }
+            (_, vm::SeqObs::Preset { err }) => format!("(VPre {})", err),
+            _ => "(VPre 99)".to_string(),
+        });
+    }
+    Some(MCase {
+        case: Case {
+            coq: format!("(EVm {})", coq_list(&coq_ops)),
+            json: json!({"case":"vm-sequence","class":class,"ops":names,"observed":format!("{obs:?}")}),
+            key: format!("vmseq/{}/{:?}", class, names),
+            nontrivial: ops.len() >= 2,
+            class: format!("vm-seq:{class}"),
+        },
+        weight: 1,
+    })
+}
+/// every ordered pair (first op, second op) + some longer random sequences
+fn c17_vm_sequences(out: &mut Out, rng: &mut Rng, pick: &mut Picker, args: &Args) {
+    use ed25519_dalek::{Signer, SigningKey};
+    use p256::ecdsa::SigningKey as PKey;
+    let reps = args.scale(2, 12);
+    for rep in 0..reps {
+        // fresh valid inputs for each kind
+        let d = rand_scalar(rng, n_k1());
+        let kmsg = rng.bytes32();
+        let ksig = *Signature::sign(&secret_of(d), &Message::from_bytes(kmsg));
+        let (rsig, rmsg) = loop {
+            let Ok(sk) = PKey::from_slice(&be(rand_scalar(rng, n_r1()))) else { continue };
+            let m = rng.bytes32();
+            let Ok(sg) = fuel_crypto::secp256r1::sign_prehashed(&sk, &Message::from_bytes(m)) else { continue };
+            break (*sg, m);
+        };
+        let esk = SigningKey::from_bytes(&rng.bytes32());
+        let emsg = { let mut m = rng.bytes_upto(60); m.push(7); m };
+        let esig = esk.sign(&emsg).to_bytes();
+        let epk = esk.verifying_key().to_bytes();
+        let ok_k = vm::SeqOp::Rec { r1: false, sig: ksig, msg: kmsg };
+        let ok_r = vm::SeqOp::Rec { r1: true, sig: rsig, msg: rmsg };
+        let ok_e = vm::SeqOp::Ed { pk: epk, sig: esig, msg: emsg.clone() };
+        // failing variants: r = 0 / r = n (never recovers), damaged ed25519 signature
+        let mut bad_ksig = ksig;
+        bad_ksig[..32].copy_from_slice(&[0u8; 32]);
+        let mut bad_rsig = rsig;
+        bad_rsig[..32].copy_from_slice(&be(n_r1()));
+        let mut bad_esig = esig;
+        bad_esig[5] ^= 0x40;
+        let bad_k = vm::SeqOp::Rec { r1: false, sig: bad_ksig, msg: kmsg };
+        let bad_r = vm::SeqOp::Rec { r1: true, sig: bad_rsig, msg: rmsg };
+        let bad_e = vm::SeqOp::Ed { pk: epk, sig: bad_esig, msg: emsg.clone() };
+        let firsts: Vec<(&str, vm::SeqOp)> = vec![
+            ("failing-ECK1", bad_k.clone()), ("failing-ECR1", bad_r.clone()), ("failing-ED19", bad_e.clone()),
+            ("err-preset-by-DIV", vm::SeqOp::PresetErr),
+            ("succeeding-ECK1", ok_k.clone()), ("succeeding-ECR1", ok_r.clone()), ("succeeding-ED19", ok_e.clone()),
+        ];
+        let seconds: Vec<(&str, vm::SeqOp)> = vec![
+            ("succeeding-ECK1", ok_k.clone()), ("succeeding-ECR1", ok_r.clone()), ("succeeding-ED19", ok_e.clone()),
+            ("failing-ECK1", bad_k.clone()), ("failing-ECR1", bad_r.clone()), ("failing-ED19", bad_e.clone()),
+        ];
+        for (fname, f) in &firsts {
+            for (sname, sop) in &seconds {
+                let class = format!("{fname}-then-{sname}");
+                let m = c17_vm_seq(out, &[f.clone(), sop.clone()], &class);
+                out.count("vm-seq-pairs");
+                if let (Some(m), false, 0) = (m, args.oracle_only, rep) {
+                    pick.offer(m);
+                }
+            }
+        }
+        // longer random sequences
+        let pool: Vec<vm::SeqOp> = firsts.iter().map(|x| x.1.clone()).collect();
+        for j in 0..args.scale(6, 40) {
+            let len = rng.range(3, 7) as usize;
+            let ops: Vec<vm::SeqOp> = (0..len).map(|_| rng.pick(&pool).clone()).collect();
+            let m = c17_vm_seq(out, &ops, "random-sequence");
+            out.count("vm-seq-random");
+            if let (Some(mut m), false, true) = (m, args.oracle_only, rep == 0 && j < 4) {
+                m.case.class = format!("vm-seq:random-{j}");
+                pick.offer(m);
             }
         }
     }
@@ -1244,6 +1496,8 @@ fn run_c17(args: &Args, out: &mut Out) {
             }
         }
     }
+    // the three instructions in sequences inside one script ($err must not depend on history)
+    c17_vm_sequences(out, &mut rng, &mut pick, args);
     // secp256r1
     c17_r1(out, &mut rng, &mut pick, args);
     {
@@ -1275,6 +1529,7 @@ fn run_c17(args: &Args, out: &mut Out) {
         }
     }
     out.notes.push("ED19 with msg_len = 0 verifies the 32 bytes at msg_ptr (documented compatibility rule in opcodes_impl.rs); the oracle follows that rule, so a signature over the empty message cannot be checked by the instruction".into());
+    out.notes.push("VM sequences: every ordered pair (failing/succeeding ECK1, ECR1, ED19 or $err pre-set by DIV-by-zero under F_UNSAFEMATH; then succeeding/failing ECK1, ECR1, ED19) and random longer scripts run in ONE script; after each op $err and the output must equal what the library gives for that op alone".into());
     out.notes.push("verify ignores the recovery-id bit (bit 255 of s) by design: flipping it keeps verify = Ok and makes recover return a different key".into());
     let cases = balance(pick.picked, args.shards);
     for c in cases {
@@ -1354,6 +1609,12 @@ fn replay(args: &Args, out: &mut Out, v: &Value) {
             let i = EdIn { pk, sig, msg, class };
             let lib = c17_ed(out, &i);
             c17_vm_ed(out, &i, lib);
+        }
+        "vm-seq" => {
+            let ops: Vec<vm::SeqOp> = v["ops"].as_array().map(|a| a.iter().filter_map(seq_op_of_js).collect()).unwrap_or_default();
+            if let Some(m) = c17_vm_seq(out, &ops, v["class"].as_str().unwrap_or("replay")) {
+                out.push(m.case);
+            }
         }
         "r1-sign" => {
             out.notes.push("r1-sign replay: re-run the r1 stream with the same seed".into());
